@@ -461,6 +461,32 @@ def r4(ctx):
 # ---------------------------------------------------------------------------
 # R5: perimeters telescope to the hexagon perimeter
 
+# the two perimeter functions are also evaluated on model cores, value by
+# value (C09.R8 / C09.R9); where a body is not in the loop form below, the
+# telescoping clause is implied by those rules and R5 defers to them
+R5_EVALUATED = {'Core._calculate_sc_wp': ('C09.R8', '_f_c09'),
+                'Core._calculate_asm_sc_wp': ('C09.R9', '_f_c09_2')}
+
+
+def _r5_defer(ctx, fi, q, piece):
+    """The body does not have the form R5 reads: the piece is decided on
+    values by the rule that evaluates the function on model cores.  Fails
+    closed when that rule does not exist."""
+    import importlib
+    rule, modname = R5_EVALUATED[q]
+    try:
+        em = importlib.import_module('dsa.rules.' + modname)
+    except ImportError as e:
+        raise AnalysisError('%s: %s not in the loop form and the evaluating '
+                            'rule %s is missing (%s)' % (q, piece, rule, e))
+    if getattr(em, 'RULE', None) != rule or 'C09' not in getattr(
+            em, 'PROPS', ()) or not hasattr(em, 'run'):
+        raise AnalysisError('%s: %s not in the loop form and %s does not '
+                            'provide %s' % (q, piece, modname, rule))
+    ctx.ok('C09.R5', fi, None, '%s: not in the loop form, decided on the '
+           'values of the model cores by %s' % (piece, rule))
+
+
 def r5(ctx):
     from . import _hexgeom as H
     from ..poly import Rat, from_ast
@@ -469,7 +495,9 @@ def r5(ctx):
         fi = ctx.repo.func('core', q)
         hp = U.single_def(fi.node, 'hex_perim')
         if hp is None:
-            raise AnalysisError(q + ': hex_perim')
+            for piece in ('hexagon perimeter', 'increments', 'wrap-around'):
+                _r5_defer(ctx, fi, q, piece)
+            continue
         at = {'self.duct_oftf': 'OFTF', 'np.sqrt(3)': 'r3', '_sqrt3': 'r3',
               'math.sqrt(3)': 'r3'}
         hv = from_ast(hp, at, auto=True)
@@ -492,8 +520,9 @@ def r5(ctx):
                 incs = [st for st in walk_no_nested(li)
                         if isinstance(st, (ast.Assign, ast.AugAssign))
                         and X in src(st.value)]
-                ok = len(incs) == 1
-                if ok:
+                if len(incs) != 1:
+                    _r5_defer(ctx, fi, q, 'increments')
+                else:
                     try:
                         v = from_ast(incs[0].value, {
                             '%s[%s + 1]' % (X, iv): 'b',
@@ -501,33 +530,33 @@ def r5(ctx):
                         ok = v.equals(Rat.sym('b') - Rat.sym('a'))
                     except Exception:
                         ok = False
-                ctx.require(ok, 'C09.R5', fi, incs[0] if incs else li,
-                            'each cell gets the distance between its two '
-                            'boundaries %s[i+1] - %s[i], for all consecutive '
-                            'boundaries' % (X, X),
-                            key=fi.full + ' | increment')
+                    ctx.require(ok, 'C09.R5', fi, incs[0],
+                                'each cell gets the distance between its two '
+                                'boundaries %s[i+1] - %s[i], for all '
+                                'consecutive boundaries' % (X, X),
+                                key=fi.full + ' | increment')
                 # wrap-around: the first store after the inner loop
                 after = lo.body[lo.body.index(li) + 1:]
                 wr = [st for st in after
                       if isinstance(st, (ast.Assign, ast.AugAssign))
                       and X in src(st.value)]
-                ok = len(wr) == 1
-                res = None
-                if ok:
+                if len(wr) != 1:
+                    _r5_defer(ctx, fi, q, 'wrap-around')
+                else:
                     w = from_ast(wr[0].value, {
                         'hex_perim': 'Hx', X + '[-1]': 'xl',
                         X + '[len(%s) - 1]' % X: 'xl', X + '[0]': 'x0'},
                         auto=True)
                     res = w + Rat.sym('xl') - Rat.sym('x0') - Rat.sym('Hx')
-                    ok = res.is_zero()
-                ctx.require(ok, 'C09.R5', fi, wr[0] if wr else lo,
-                            'the closing cell must get the rest of the '
-                            'perimeter: W + (%s[-1] - %s[0]) = hex_perim '
-                            '(residual %r)' % (X, X, res.n if res else None),
-                            key=fi.full + ' | wrap-around')
+                    ctx.require(res.is_zero(), 'C09.R5', fi, wr[0],
+                                'the closing cell must get the rest of the '
+                                'perimeter: W + (%s[-1] - %s[0]) = hex_perim '
+                                '(residual %r)' % (X, X, res.n),
+                                key=fi.full + ' | wrap-around')
                 found = True
         if not found:
-            raise AnalysisError(q + ': boundary loop not found')
+            for piece in ('increments', 'wrap-around'):
+                _r5_defer(ctx, fi, q, piece)
 
 
 def r6(ctx):
